@@ -3,6 +3,7 @@ package gen
 import (
 	"fmt"
 	"math/rand"
+	"strings"
 
 	openfgav1 "github.com/openfga/api/proto/openfga/v1"
 )
@@ -83,7 +84,7 @@ func pickRel(r *rand.Rand, td *openfgav1.TypeDefinition) string {
 	return names[r.Intn(len(names))]
 }
 
-const NDegenerations = 33
+const NDegenerations = 35
 
 func degenerateOnce(r *rand.Rand, m *openfgav1.AuthorizationModel) string {
 	td := pickTD(r, m)
@@ -282,6 +283,65 @@ func degenerateOnce(r *rand.Rand, m *openfgav1.AuthorizationModel) string {
 		}
 		m.Conditions["unnamed"] = &openfgav1.Condition{Expression: "x < 1", Parameters: map[string]*openfgav1.ConditionParamTypeRef{"x": {TypeName: openfgav1.ConditionParamTypeRef_TYPE_NAME_INT}}}
 		return "condition whose nested name is empty"
+	case 33, 34:
+		// names that look like the labels and keys the graph packages build internally, or that are no identifiers at
+		// all (a protobuf model can carry any string): renamed consistently so that the name is still reached
+		if td != nil {
+			old := td.GetType()
+			other := pickTD(r, m)
+			hostile := []string{"R#ghost", "R#" + other.GetType(), "union:x", "intersection:", "exclusion:1", "a#b", "a:b", other.GetType() + ":*", "*", "", " ", "a b",
+				"type", "#", ":", "x\ny", "%s%d", other.GetType() + "#" + pickRel(r, other), "R#" + other.GetType() + "#" + pickRel(r, other), strings.Repeat("n", 300)}
+			nw := hostile[r.Intn(len(hostile))]
+			if k == 33 {
+				td.Type = nw
+				for _, t2 := range m.GetTypeDefinitions() {
+					for _, md := range t2.GetMetadata().GetRelations() {
+						for _, ref := range md.GetDirectlyRelatedUserTypes() {
+							if ref != nil && ref.GetType() == old {
+								ref.Type = nw
+							}
+						}
+					}
+				}
+				return "type with a hostile name (renamed consistently)"
+			}
+			if rn := pickRel(r, td); rn != "" {
+				for _, t2 := range m.GetTypeDefinitions() {
+					if t2 == nil {
+						continue
+					}
+					if u, ok := t2.GetRelations()[rn]; ok {
+						delete(t2.Relations, rn)
+						t2.Relations[nw] = u
+					}
+					if md, ok := t2.GetMetadata().GetRelations()[rn]; ok {
+						delete(t2.Metadata.Relations, rn)
+						t2.Metadata.Relations[nw] = md
+					}
+					for _, md := range t2.GetMetadata().GetRelations() {
+						for _, ref := range md.GetDirectlyRelatedUserTypes() {
+							if ref.GetRelation() == rn {
+								ref.RelationOrWildcard = &openfgav1.RelationReference_Relation{Relation: nw}
+							}
+						}
+					}
+				}
+				for _, u := range allUsersets(m) {
+					if c := u.GetComputedUserset(); c != nil && c.GetRelation() == rn {
+						c.Relation = nw
+					}
+					if t := u.GetTupleToUserset(); t != nil {
+						if t.GetComputedUserset().GetRelation() == rn {
+							t.ComputedUserset.Relation = nw
+						}
+						if t.GetTupleset().GetRelation() == rn {
+							t.Tupleset.Relation = nw
+						}
+					}
+				}
+				return "relation with a hostile name (renamed consistently)"
+			}
+		}
 	case 29:
 		if td != nil {
 			// the same type twice
